@@ -1,5 +1,6 @@
 import Starcal.SrcTie.Defs
 import Starcal.Hijri
+import Starcal.RatCeil
 /-! Source tie, cal_types/hijri in arithmetic mode (`useMonthData` fixed to false for this copy of the translation):
     the translated source equals the hand-written model `Hijri.*`. The Go code computes two month numbers in
     float64 (`math.Ceil(29.5 * …)`, `math.Ceil((… + 0.5 - …) / 29.5)`); the translator renders float64 arithmetic
@@ -8,40 +9,7 @@ import Starcal.Hijri
     below 2^52, every quotient is at distance >= 1/59 from the next integer unless exact) is argued in DESIGN 6.5
     and exercised by the exhaustive correspondence; it is NOT proved here. -/
 namespace Starcal.SrcTie
-open Starcal Starcal.Gen.Src
-
-theorem ceil_eq_of {x : Rat} {n : Int} (h1 : ((n - 1 : Int) : Rat) < x) (h2 : x ≤ (n : Rat)) : x.ceil = n := by
-  have a := Rat.ceil_le_iff.mpr h2
-  have b := Rat.lt_ceil_iff.mpr h1
-  omega
-
-theorem ftoi_intCast (n : Int) : GoSem.ftoi (n : Rat) = n := by
-  unfold GoSem.ftoi; split <;> simp [Rat.floor_intCast]
-
-/-- `ceil(29.5 * k)` exactly -/
-theorem ceil_half59 (k : Int) : Rat.ceil (((59 : Rat) / 2) * ((k : Int) : Rat)) = (59 * k + 1) / 2 := by
-  apply ceil_eq_of
-  · have h : ((59 * k + 1) / 2 - 1) * 2 < 59 * k := by omega
-    have h' : (((((59 * k + 1) / 2 - 1) * 2 : Int)) : Rat) < ((59 * k : Int) : Rat) := Rat.intCast_lt_intCast.mpr h
-    simp only [Rat.intCast_mul, Rat.intCast_sub, Rat.intCast_ofNat] at h' ⊢
-    grind
-  · have h : 59 * k ≤ ((59 * k + 1) / 2) * 2 := by omega
-    have h' : ((59 * k : Int) : Rat) ≤ ((((59 * k + 1) / 2) * 2 : Int) : Rat) := Rat.intCast_le_intCast.mpr h
-    simp only [Rat.intCast_mul, Rat.intCast_ofNat] at h' ⊢
-    grind
-
-/-- `ceil((jd + 0.5 - ys) / 29.5)` exactly -/
-theorem ceil_month (jd ys : Int) :
-    Rat.ceil ((((jd : Int) : Rat) + (1 : Rat) / 2 - ((ys : Int) : Rat)) / ((59 : Rat) / 2)) = (2 * (jd - ys) + 1 + 58) / 59 := by
-  apply ceil_eq_of
-  · have h : ((2 * (jd - ys) + 1 + 58) / 59 - 1) * 59 < 2 * (jd - ys) + 1 := by omega
-    have h' := Rat.intCast_lt_intCast.mpr h
-    simp only [Rat.intCast_mul, Rat.intCast_sub, Rat.intCast_add, Rat.intCast_ofNat] at h' ⊢
-    grind
-  · have h : 2 * (jd - ys) + 1 ≤ ((2 * (jd - ys) + 1 + 58) / 59) * 59 := by omega
-    have h' := Rat.intCast_le_intCast.mpr h
-    simp only [Rat.intCast_mul, Rat.intCast_sub, Rat.intCast_add, Rat.intCast_ofNat] at h' ⊢
-    grind
+open Starcal Starcal.Gen.Src Starcal.RatCeil
 
 theorem hijri_IsLeap_eq (y : Int) : hijri_IsLeap y = some (Hijri.isLeap y) := by
   simp only [hijri_IsLeap, utils_Mod_pos _ 30 (by decide), bind, Option.bind, pure, Hijri.isLeap]
